@@ -581,11 +581,29 @@ func detachOn[T any](bufferSize int, onUpstream, onDownstream bool) func(Observa
 		return NewObservableWithContext(func(subscriberCtx context.Context, destination Observer[T]) Teardown {
 			ch := make(chan lo.Tuple2[context.Context, Notification[T]], bufferSize)
 
+			// `ch` is closed by the upstream side only, after its terminal notification.
+			// The teardown never closes it (the producer may be sending at that very moment):
+			// it closes `done`, which releases both a blocked sender and the consumer loop.
 			once := sync.Once{}
 			stop := func() {
 				once.Do(func() {
 					close(ch)
 				})
+			}
+
+			done := make(chan struct{})
+			onceDone := sync.Once{}
+			cancel := func() {
+				onceDone.Do(func() {
+					close(done)
+				})
+			}
+
+			send := func(ctx context.Context, notification Notification[T]) {
+				select {
+				case ch <- lo.T2(ctx, notification):
+				case <-done:
+				}
 			}
 
 			subscriptions := NewSubscription(nil)
@@ -596,15 +614,15 @@ func detachOn[T any](bufferSize int, onUpstream, onDownstream bool) func(Observa
 						subscriberCtx,
 						NewObserverWithContext(
 							func(ctx context.Context, value T) {
-								ch <- lo.T2(ctx, NewNotificationNext(value))
+								send(ctx, NewNotificationNext(value))
 							},
 							func(ctx context.Context, err error) {
-								ch <- lo.T2(ctx, NewNotificationError[T](err))
+								send(ctx, NewNotificationError[T](err))
 
 								stop()
 							},
 							func(ctx context.Context) {
-								ch <- lo.T2(ctx, NewNotificationComplete[T]())
+								send(ctx, NewNotificationComplete[T]())
 
 								stop()
 							},
@@ -614,14 +632,23 @@ func detachOn[T any](bufferSize int, onUpstream, onDownstream bool) func(Observa
 			}
 
 			produceDownstream := func() {
-				for notification := range ch {
-					processNotificationWithContext(
-						notification.A,
-						notification.B,
-						destination.NextWithContext,
-						destination.ErrorWithContext,
-						destination.CompleteWithContext,
-					)
+				for {
+					select {
+					case notification, ok := <-ch:
+						if !ok {
+							return
+						}
+
+						processNotificationWithContext(
+							notification.A,
+							notification.B,
+							destination.NextWithContext,
+							destination.ErrorWithContext,
+							destination.CompleteWithContext,
+						)
+					case <-done:
+						return
+					}
 				}
 			}
 
@@ -648,7 +675,7 @@ func detachOn[T any](bufferSize int, onUpstream, onDownstream bool) func(Observa
 
 			return func() {
 				subscriptions.Unsubscribe()
-				stop()
+				cancel()
 			}
 		})
 	}
